@@ -169,7 +169,9 @@ Fixpoint fold_out {A B} (f : A -> B -> outcome A) (a : A) (l : list B) : outcome
 
 (* ---------------- operations *)
 Inductive via := ByMsg (proposer : Z) | ByProp.
-Inductive gkind := GPoll | GSubmit | GVote | GDapp.
+(* GOther p exact: a gated message of any module whose handler is meant to require permission p
+   (probe through the real handler); exact = the probe message is valid, so it succeeds iff the gate passes *)
+Inductive gkind := GPoll | GSubmit | GVote | GDapp | GOther (p : Z) (exact : bool).
 Inductive op :=
 | OWlAcc (v : via) (a p : Z) | OBlAcc (v : via) (a p : Z) | ORmWlAcc (v : via) (a p : Z) | ORmBlAcc (v : via) (a p : Z)
 | OWlRole (v : via) (r p : Z) | OBlRole (v : via) (r p : Z) | ORmWlRole (v : via) (r p : Z) | ORmBlRole (v : via) (r p : Z)
@@ -287,7 +289,7 @@ Variable c : cfg.
 (* the permission each non-editing gated message is coded to check *)
 Definition gate_perm_coded (k : gkind) : Z :=
   match k with GPoll => PermCreatePollProposal | GSubmit => PermCreateSetPoorNetworkMessagesProposal
-             | GVote => PermVoteSetPoorNetworkMessagesProposal | GDapp => dapp_perm c end.
+             | GVote => PermVoteSetPoorNetworkMessagesProposal | GDapp => dapp_perm c | GOther p _ => p end.
 Definition rotate (s : state) (a b : Z) : state := if rotate_fixed c then rotate_repaired s a b else rotate_buggy s a b.
 
 Definition step (s : state) (o : op) : outcome state :=
